@@ -507,6 +507,7 @@ def run_programs(ctx, sc, asan, progs, cov):
         r = engines.run_native(d, san=True) if built else None
         if r is not None and r.timeout:
             r = engines.run_native(d, san=True)          # re-run once before believing a hang
+        shutil.rmtree(d, ignore_errors=True)             # a sanitized binary is ~3 MB; the sources are kept in memory
         return item, nr, built, r
 
     hist = {}
